@@ -284,6 +284,13 @@ def space(tier):
         for pol in ("low", "high"):
             units.append(({"program": p, "cfg": {"env_kinds": ["fault"], "faults": ["5xx", "4xx"], "policy": pol}},
                           {"fault": 1, "total": 1}, cap))
+    # an update queued behind the failing in-flight call (50 ms API latency, step bodies of 120 ms)
+    for names in (("Sd",), ("Hd",), ("Sd", "S")):
+        p = P.program(names)
+        p["meta"] = {"kind": "fault"}
+        for pol in ("rtb", "low", "high"):
+            units.append(({"program": p, "cfg": {"env_kinds": ["fault"], "faults": ["5xx", "4xx"], "api_latency": 0.05, "policy": pol}},
+                          {"fault": 1, "total": 1}, cap))
     big = {"name": "S+bigresult", "meta": {"kind": "fault"}, "seq": P.U("S"), "ret": {"pad": 6 * 1024 * 1024}}
     units.append(({"program": big, "cfg": {"env_kinds": ["fault"], "faults": FAULTS}}, {"fault": 1, "total": 1}, cap))
     for name in malformed_events():
